@@ -271,7 +271,7 @@ VERUS = {
                   desc='the serde visitors on extracted text (MapVisitor::visit_map, SeqVisitor::visit_seq, the in-place SeqInPlaceVisitor::visit_seq, size_hint::cautious) over an ARBITRARY input: any sequence of entries that ends or fails at some position, with an arbitrary (lying) size hint: the pre-allocation request never exceeds 4096 whatever the hint claims (obligation of with_capacity / reserve), every entry is inserted in order (a repeated key keeps its last value), the in-place form first empties the target, an input error is passed on and nothing else produces one; the loops terminate',
                   paired={}),
     'alloc': dict(props=['C12', 'C08', 'C02', 'C03'], tier='quick',
-                  desc='the allocation path on extracted text: new_uninitialized (against the contracts of calculate_layout_for and of the allocator call: the control pointer block + ctrl_offset stays inside the block, buckets + WIDTH control bytes follow it, bucket_mask = buckets - 1 < 2^62, growth_left = capacity), fallible_with_capacity (capacity 0 gives the unallocated singleton, otherwise a table with the minimal admissible bucket count, every control byte EMPTY, nothing stored, whole capacity available) and prepare_resize (the same, which is the contract unit resize assumes); every error return happens in fallible mode only; allocation_info / allocation_size_or_zero / free_buckets: calculate_layout_for being a function of its arguments, a table that was allocated for an element layout gets back exactly that block and layout (so the unreachable_unchecked is dead, the reported allocation size is data + padding + control bytes, and deallocate is called with the pointer and layout of the allocation)',
+                  desc='the allocation path on extracted text: new_uninitialized (against the contracts of calculate_layout_for and of the allocator call: the control pointer block + ctrl_offset stays inside the block, buckets + WIDTH control bytes follow it, bucket_mask = buckets - 1 < 2^62, growth_left = capacity), fallible_with_capacity (capacity 0 gives the unallocated singleton, otherwise a table with the minimal admissible bucket count, every control byte EMPTY, nothing stored, whole capacity available) and prepare_resize (the same, which is the contract unit resize assumes); every error return happens in fallible mode only; allocation_info / allocation_size_or_zero / free_buckets: calculate_layout_for being a function of its arguments, a table that was allocated for an element layout gets back exactly that block and layout (so the unreachable_unchecked is dead, the reported allocation size is data + padding + control bytes, and deallocate is called with the pointer and layout of the allocation); RawTable::into_allocation hands on the block of every allocated table, empty or not, and nothing for the unallocated singleton',
                   paired={}),
     'iter': dict(props=['C09', 'C19', 'C02', 'C03'], tier='quick',
                  desc='the raw iterator core on extracted text, control pointers and buckets kept as indices into an arbitrary table (any power-of-two size, both widths): RawIterRange::new (yields exactly the FULL buckets of its range), RawIterRange::next_impl in checked and unchecked mode (returns the smallest remaining FULL bucket, consumes exactly it, None only when nothing is left, every group load aligned and in bounds, terminates), RawIter::next (items counts exactly what is left; None iff items == 0), RawIterRange::split (the two halves partition the remaining buckets, both again well-formed), RawIterRange::fold_impl (the closure is called on exactly the remaining FULL buckets, ascending, each once, accumulator threaded), FullBucketsIndices::next_impl / next (same contract over bucket indices; with lemma_min_is_next_enum this is the ascending enumeration that unit resize assumes); RawIter::drop_elements and RawTableInner::drop_elements (when the element type needs dropping and elements remain, exactly the remaining FULL buckets are dropped, ascending, each once; otherwise none); lemma L8: the leaves of any split tree yield every bucket of the root exactly once',
